@@ -198,6 +198,9 @@ package slug
 
 //@ func parseIgnoreFile -> (r)
 //@   pure
+//@   ghost $statPath String = ""
+//@   ghost $statSaysOpenable Bool = false
+//@   at-call os.Open C19.rules.opens-only-regular: $statPath == a0 && $statSaysOpenable
 //@   opt pure-label=C16.no-shared-state
 //@   sweep
 
